@@ -1208,7 +1208,9 @@ impl<SE: extensions::ShellExtensions> ExecuteInPipeline<SE> for ast::SimpleComma
                 CommandPrefixOrSuffixItem::IoRedirect(redirect) => {
                     if let Err(e) = setup_redirect(&mut context.shell, &mut params, redirect).await
                     {
-                        writeln!(params.stderr(&context.shell), "error: {e}")?;
+                        // N.B. Failing to report the error must not replace the error itself
+                        // (e.g., errexit still has to see the command fail).
+                        let _ = writeln!(params.stderr(&context.shell), "error: {e}");
                         return Ok(ExecutionResult::general_error().into());
                     }
                 }
